@@ -428,6 +428,21 @@ def execute(case):
             problems.append([repr(v), sorted(map(str, kw)), 'a filled TaggedValue with a selected tag was not materialized'])
         except Exception as e:
           problems.append([repr(v), sorted(map(str, kw)), f'raised {type(e).__name__}: {e}'[:120]])
+    # an UNSET stand-alone TaggedValue stays where it is (and still fails the build)
+    for kw in ({}, {'tags': {targets.T0}}, {'clear_field_tags': True}):
+      cfg = fdl.Config(graphs.node_fn(1, 0), p=[targets.T0.new(), targets.T0.new(Tok(3))], q={'k': targets.T1.new()})
+      try:
+        t = tagging.materialize_tags(cfg, **kw)
+        if not (isinstance(t.p[0], fdl.Buildable) and isinstance(t.q['k'], fdl.Buildable) and
+                isinstance(t.p[1], Tok)):
+          problems.append(['unset', sorted(map(str, kw)), 'unset TaggedValue replaced / filled one not materialized'])
+        try:
+          fdl.build(t)
+          problems.append(['unset', sorted(map(str, kw)), 'a configuration with an unfilled TaggedValue built'])
+        except Exception:
+          pass
+      except Exception as e:
+        problems.append(['unset', sorted(map(str, kw)), f'raised {type(e).__name__}: {e}'[:120]])
     obs['problems'] = problems
     return obs, None
   if name == 'inline':
